@@ -14,6 +14,7 @@ const std::string& ManagedText::Raw() const noexcept { return rawText; }
 
 void ManagedText::InitFrom(std::string_view ref, const EntityTermContext& cntxt) {
   rawText = ref;
+  cache.clear(); // Note: the old resolution belongs to the old text, it must not survive when resolving is skipped
   UpdateFrom(cntxt);
 }
 
